@@ -1,6 +1,6 @@
 import BfeVerif.C44.NegoProofs
 /-!
-  (sed copy of C41/Props.lean with theorems renamed nego_*, used as lemmas by C44/Props.lean) TLS negotiation picks mutually supported parameters and resists downgrade.
+  (sed copy of the negotiation part of C41/Props.lean — without the Select.lean theorems —, theorems renamed nego_*, used as lemmas by C44/Props.lean) TLS negotiation picks mutually supported parameters and resists downgrade.
   Property theorems only.  All are about `readClientHello` of `Model.lean`, i.e. about the decisions taken
   before any key exchange; key exchange, record protection and "application data flows" are executed by
   the harness, not modelled.
